@@ -24,21 +24,35 @@ import (
 	"errors"
 	"net/netip"
 	"runtime"
+	"runtime/debug"
 	"strconv"
 	"strings"
 	"sync"
 	"time"
 
 	"github.com/irai/packet"
+	"github.com/irai/packet/fastlog"
 	"pvharness/cmd/c01/pgen"
 	"pvharness/lib"
 )
 
+var OtherPeerMAC = []byte{0x02, 0x44, 0x44, 0x44, 0x44, 0x44}
 var PingPeerMAC = []byte{0x02, 0x33, 0x33, 0x33, 0x33, 0x33}
 
 // runPing executes one history; poisoned reports that the waiter table may be left locked (stop the unit).
 // RunPing executes one history; c02 selects the C02 projection of every frame instead of the full C01 observation.
 func RunPing(a []string, c02 bool) (obs string, poisoned bool) {
+	mode := "full"
+	if c02 {
+		mode = "c02"
+	}
+	return RunPingMode(a, mode)
+}
+
+// RunPingMode: mode "full" | "c02" (observation of every frame) | "alloc" (heap allocations of every single Parse call:
+// every frame is first parsed once BEFORE the ping is registered, so that its source is tracked and online; then, with
+// the ping pending, each Parse is bracketed by runtime.ReadMemStats with the GC off: "0" or "+").
+func RunPingMode(a []string, mode string) (obs string, poisoned bool) {
 	fam := a[0]
 	ms, _ := strconv.Atoi(a[1])
 	toks := a[2:]
@@ -48,6 +62,14 @@ func RunPing(a []string, c02 bool) (obs string, poisoned bool) {
 	s := pgen.NewSession(pgen.DefaultCfg)
 	conn := lib.NewRecConn()
 	s.Conn = conn
+	if mode == "alloc" {
+		packet.Logger.SetLevel(fastlog.LevelInfo)
+		for _, t := range toks { // warm-up: sources become tracked and online (waiter table empty: no notification)
+			_, p := pgen.Buffer(lib.UnHex(t[2:]), nil)
+			lib.Catch(func() { s.Parse(p); s.Parse(p) })
+		}
+		defer debug.SetGCPercent(debug.SetGCPercent(-1))
+	}
 	done := make(chan error, 1)
 	idOff := 14 + 20 + 4
 	go func() {
@@ -100,10 +122,31 @@ func RunPing(a []string, c02 bool) (obs string, poisoned bool) {
 	go func() { // the feed: back to back, no yield between two Parse calls
 		for i, f := range frames {
 			buf, p := pgen.Buffer(f, nil)
-			o := pgen.Observe(s, buf, p) // Parse and every accessor under recover: the observation of kind p / d
-			r := o.Full
-			if c02 {
-				r = o.C02
+			var r string
+			if mode == "alloc" {
+				r = "0"
+				func() {
+					defer func() {
+						if recover() != nil {
+							r = "panic"
+						}
+					}()
+					var m0, m1 runtime.MemStats
+					runtime.ReadMemStats(&m0)
+					_, err := s.Parse(p)
+					runtime.ReadMemStats(&m1)
+					if err != nil {
+						r = pgen.ErrClass(err)
+					} else if m1.Mallocs != m0.Mallocs {
+						r = "+"
+					}
+				}()
+			} else {
+				o := pgen.Observe(s, buf, p) // Parse and every accessor under recover: the observation of kind p / d
+				r = o.Full
+				if mode == "c02" {
+					r = o.C02
+				}
 			}
 			mu.Lock()
 			res[i] = r
@@ -150,6 +193,9 @@ func EchoFrame(fam string, typ byte, icmpLen int, mut string) []byte {
 	var f []byte
 	if fam == "6" {
 		src, dst := netip.MustParseAddr("fe80::7").As16(), netip.MustParseAddr("fe80::1:129").As16()
+		if mut == "other" {
+			src = netip.MustParseAddr("fe80::8").As16()
+		}
 		proto := byte(58)
 		if mut == "family" {
 			proto = 1
@@ -166,8 +212,12 @@ func EchoFrame(fam string, typ byte, icmpLen int, mut string) []byte {
 		if mut == "family" {
 			proto = 58
 		}
+		sip := []byte{192, 168, 0, 7}
+		if mut == "other" {
+			sip = []byte{192, 168, 0, 8}
+		}
 		f = pgen.Ether(pgen.DefaultCfg.HostMAC, PingPeerMAC, 0x0800,
-			pgen.IP4(5, 20+len(icmp), proto, []byte{192, 168, 0, 7}, []byte{192, 168, 0, 129}, nil, icmp))
+			pgen.IP4(5, 20+len(icmp), proto, sip, []byte{192, 168, 0, 129}, nil, icmp))
 		switch mut {
 		case "version":
 			f[14] = 0x55
@@ -175,7 +225,31 @@ func EchoFrame(fam string, typ byte, icmpLen int, mut string) []byte {
 			f[16], f[17] = 0, 27
 		}
 	}
+	if mut == "other" { // another tracked host: its own MAC
+		copy(f[6:12], OtherPeerMAC)
+	}
 	return f
+}
+
+// AllocHistories: frames from tracked online hosts while a ping is pending - the matching identifier from the pinged
+// host, the matching identifier from ANOTHER tracked host, another identifier - each Parse measured on its own.
+func AllocHistories() [][]string {
+	var out [][]string
+	for _, fam := range []string{"4", "6"} {
+		reply := byte(0)
+		if fam == "6" {
+			reply = 129
+		}
+		tok := func(kind string, f []byte) string { return kind + ":" + lib.Hex(f) }
+		m := tok("m", EchoFrame(fam, reply, 24, ""))
+		mo := tok("m", EchoFrame(fam, reply, 24, "other"))
+		o := tok("o", EchoFrame(fam, reply, 24, ""))
+		oo := tok("o", EchoFrame(fam, reply, 24, "other"))
+		for _, h := range [][]string{{m}, {mo}, {o}, {oo}, {mo, mo}, {o, mo, m}, {oo, o, m, mo}} {
+			out = append(out, append([]string{fam, "120"}, h...))
+		}
+	}
+	return out
 }
 
 // Histories: the argument lists of all histories (IPv4 and IPv6).
